@@ -250,4 +250,30 @@ theorem fresh_world_cidsOK (cfg : Cfg) (store : Store) (pipes : Array PipeInfo) 
   simp only [this]
   exact ⟨List.nodup_nil, by simp⟩
 
+theorem count_cidsAll (pools : List Pool) (x : Nat) :
+    (pools.flatMap cidsAll).count x = (cids (pools.flatMap (·.active))).count x + (cids (pools.flatMap (·.suspending))).count x +
+      (cids (pools.flatMap (·.suspended))).count x := by
+  induction pools with
+  | nil => simp [cids]
+  | cons p ps ih =>
+    simp only [List.flatMap_cons, cidsAll, cids_append, List.count_append, ih]
+    omega
+
+/-- what "container numbers are never re-used" gives the scheduler -/
+theorem cidsOK_facts {w : World} (h : w.CidsOK) :
+    (cids (w.pools.flatMap (·.suspending))).Nodup ∧ (cids (w.pools.flatMap (·.suspended))).Nodup ∧ (cids (w.pools.flatMap (·.active))).Nodup ∧
+    (∀ x, x ∈ cids (w.pools.flatMap (·.suspended)) → x ∉ cids (w.pools.flatMap (·.suspending)) ∧ x ∉ cids (w.pools.flatMap (·.active))) ∧
+    (∀ x, x ∈ cids (w.pools.flatMap (·.suspending)) → x ∉ cids (w.pools.flatMap (·.active))) := by
+  have hc := (nodup_iff_count_le_one _).mp h.1
+  have key : ∀ x, (cids (w.pools.flatMap (·.active))).count x + (cids (w.pools.flatMap (·.suspending))).count x +
+      (cids (w.pools.flatMap (·.suspended))).count x ≤ 1 := fun x => by rw [← count_cidsAll]; exact hc x
+  refine ⟨(nodup_iff_count_le_one _).mpr (fun x => by have := key x; omega), (nodup_iff_count_le_one _).mpr (fun x => by have := key x; omega),
+    (nodup_iff_count_le_one _).mpr (fun x => by have := key x; omega), fun x hx => ?_, fun x hx => ?_⟩
+  · have h1 := List.one_le_count_iff.mpr hx
+    have := key x
+    exact ⟨fun h2 => by have := List.one_le_count_iff.mpr h2; omega, fun h2 => by have := List.one_le_count_iff.mpr h2; omega⟩
+  · have h1 := List.one_le_count_iff.mpr hx
+    have := key x
+    exact fun h2 => by have := List.one_le_count_iff.mpr h2; omega
+
 end Eudoxia
